@@ -303,6 +303,36 @@ func C13(p *core.Program, r *core.Report) {
 				}
 			})
 			r.Check(okS, base+"recorded", "the node a bundle came from is put into the bundle's metadata.sent and written to bundleData", p.Pos(eps[0].Pos()), "", "previous node not recorded")
+			// ... on every branch that initialises the metadata (a bundle without the algorithm's own block, or one
+			// with our own source, can still have been handed over by a peer)
+			nInit := 0
+			core.EachInstr(fn, func(in ssa.Instruction) {
+				mu, ok := in.(*ssa.MapUpdate)
+				if !ok || !pathEndsWith(mu.Map, "bundleData") {
+					return
+				}
+				nInit++
+				ld, ok := mu.Value.(*ssa.UnOp)
+				var holder *ssa.Alloc
+				if ok {
+					holder, _ = ld.X.(*ssa.Alloc)
+				}
+				okB := false
+				if holder != nil {
+					core.EachInstr(fn, func(i2 ssa.Instruction) {
+						st, ok := i2.(*ssa.Store)
+						if !ok || !core.IsField(st.Addr, routingPkg, "sprayMetaData", "sent") || !core.DependsOn(st.Val, dep) {
+							return
+						}
+						if fa, ok := st.Addr.(*ssa.FieldAddr); ok && fa.X == ssa.Value(holder) && reaches(st, mu) {
+							okB = true
+						}
+					})
+				}
+				r.Check(okB, fmt.Sprintf("%srecorded-on-every-branch#%d", base, nInit), "every branch of NotifyNewBundle that initialises a bundle's metadata records the previous node (if the bundle names one) in metadata.sent", p.Pos(mu.Pos()), "", "this branch writes metadata whose sent list cannot contain the previous node: a bundle handed over by a peer is offered back to that peer")
+			})
+			r.Count("metadata initialisations in "+fname(fn), nInit)
+			r.Min("metadata initialisations in "+fname(fn), 2)
 		}
 	}
 
